@@ -11,6 +11,10 @@ pub use super::assembler::Assembler;
 pub use super::combiner::verif_hooks as combiner;
 pub use super::framing::verif_hooks as framing;
 pub use super::framing::Framer;
+pub use super::agc::Agc;
+pub use super::dcblock::DCBlocker;
+pub use super::symsync::verif_hooks as symsync;
+pub use super::symsync::{SymbolEstimate, TimingLoop};
 
 pub const MAX_MESSAGE_LENGTH: usize = super::assembler::MAX_MESSAGE_LENGTH;
 pub const MAX_INTERBURST_SYMBOLS: u64 = super::assembler::MAX_INTERBURST_SYMBOLS;
@@ -51,8 +55,19 @@ pub struct TickTap {
     pub link_state: super::LinkState,
 }
 
+/// T0: one record per low-rate (timing error detector) sample
+#[derive(Clone, Debug, PartialEq)]
+pub struct TedTap {
+    pub input_sample_counter: u64,
+    pub clock_remaining_sa: f32,
+    pub sample: f32,
+    pub samples_until_next_ted: f32,
+    pub symbol: Option<SymbolEstimate>,
+}
+
 #[derive(Clone, Debug, Default)]
 pub struct Taps {
+    pub ted: Vec<TedTap>,
     pub squelch: Vec<SquelchTap>,
     pub bytes: Vec<ByteTap>,
     pub ticks: Vec<TickTap>,
@@ -70,6 +85,26 @@ pub fn taps_start() {
 /// Stop recording on this thread and return what was recorded
 pub fn taps_take() -> Taps {
     TAPS.with(|t| t.borrow_mut().take()).unwrap_or_default()
+}
+
+pub(crate) fn tap_ted(
+    input_sample_counter: u64,
+    clock_remaining_sa: f32,
+    sample: f32,
+    samples_until_next_ted: f32,
+    symbol: &Option<SymbolEstimate>,
+) {
+    TAPS.with(|t| {
+        if let Some(taps) = t.borrow_mut().as_mut() {
+            taps.ted.push(TedTap {
+                input_sample_counter,
+                clock_remaining_sa,
+                sample,
+                samples_until_next_ted,
+                symbol: symbol.clone(),
+            });
+        }
+    });
 }
 
 pub(crate) fn tap_squelch(bit: bool, errors: u32, open_ok: bool, close_ok: bool) {
